@@ -385,3 +385,69 @@ func verifC09Rank(rx, ry, rz int) {}
 //@     invariant forall i int :: idx() <= i < m.n ==> res.Values[i] == old(res.Values[i])
 //@     invariant forall i int :: 0 <= i < idx() && testOf(deref(m), i) ==> 0 <= keepCount(deref(m), i) < j
 //@     decreases len(res.Values) - idx()
+
+// ---------------------------------------------------------------------------
+// Keys (C08)
+
+// sameVals: two value vectors are equal element by element.
+//@ pure func sameVals(v []string, row []string) bool = len(v) == len(row) && forall i int :: 0 <= i < len(v) ==> v[i] == row[i]
+
+// trimmed: no trailing empty value.
+//@ pure func trimmed(v []string) bool = len(v) == 0 || v[len(v)-1] != ""
+
+// trimOf(v, row): v is row without its trailing empty values.
+//@ pure func trimOf(v []string, row []string) bool = len(v) <= len(row) && trimmed(v) &&
+//@     (forall i int :: 0 <= i < len(v) ==> v[i] == row[i]) &&
+//@     (forall i int :: len(v) <= i < len(row) ==> row[i] == "")
+
+//@ func (n *keyNode) equalRow(row []string) (r bool)
+//@   props C08
+//@   requires n != nil
+//@   ensures r <==> sameVals(n.vals, row)
+//@   loop 1:
+//@     invariant 0 <= idx() <= len(n.vals)
+//@     invariant forall i int :: 0 <= i < idx() ==> n.vals[i] == row[i]
+//@     decreases len(n.vals) - idx()
+
+// A key returns for each field exactly the stored value, a missing one
+// counting as empty.
+//@ func (k Key) Get(f *Field) (r string)
+//@   props C08
+//@   requires k.k != nil && f != nil && k.k.proj == f.proj && !f.IsTuple && f.idx >= 0
+//@   ensures r == fval(k.k.vals, f)
+
+// Every interned node belongs to the projection and is trimmed.
+//@ pure func keysOK(p *Projection) bool = (forall h uint64, i int :: has(p.keys, h) && 0 <= i < len(p.keys[h]) ==> p.keys[h][i] != nil) &&
+//@     (forall h uint64, i int :: has(p.keys, h) && 0 <= i < len(p.keys[h]) ==> p.keys[h][i].proj == p) &&
+//@     (forall h uint64, i int :: has(p.keys, h) && 0 <= i < len(p.keys[h]) ==> trimmed(p.keys[h][i].vals))
+
+// Buckets own their backing arrays: appending to one never writes into another.
+//@ pure func bucketsApart(p *Projection) bool = forall h1 uint64, h2 uint64 :: has(p.keys, h1) && has(p.keys, h2) && h1 != h2 && p.keys[h1] != nil ==>
+//@     ref(p.keys[h1]) != ref(p.keys[h2])
+
+//@ func (p *Projection) FlattenedFields() (r []*Field)
+//@   trusted
+//@   requires p != nil
+//@   modifies p
+//@   ensures flatOK(r)
+//@   ensures p.row === old(p.row) && p.keys == old(p.keys)
+
+//@ func (p *Projection) internRow() (r Key)
+//@   props C08
+//@   requires p != nil && p.keys != nil && keysOK(p) && bucketsApart(p)
+//@   modifies p, p.keys, heap(map[string]int), heap(*keyNode)
+//@   ensures r.k != nil && r.k.proj == p && trimOf(r.k.vals, old(p.row))
+//@   ensures keysOK(p) && bucketsApart(p)
+//@   loop 1:
+//@     invariant ref(row) == ref(p.row) && off(row) == off(p.row) && len(row) <= len(p.row) && unchanged()
+//@     invariant forall i int :: len(row) <= i < len(p.row) ==> p.row[i] == ""
+//@     decreases len(row)
+//@   loop 2:
+//@     invariant 0 <= idx() <= len(row) && unchanged()
+//@     decreases len(row) - idx()
+//@   loop 3:
+//@     invariant 0 <= idx() <= len(keys) && unchanged()
+//@     decreases len(keys) - idx()
+//@   loop 4:
+//@     invariant 0 <= idx() <= rlen()
+//@     decreases rlen() - idx()
